@@ -214,7 +214,7 @@ def main(run):
     names = ["nacl_prim", "zincblende_prim", "cscl", "wurtzite", "perovskite"]
     factors = sorted({float(get_default_physical_units(c)["nac_factor"]) for c in ("vasp", "qe", "abinit", "wien2k", "siesta", "crystal", "dftbp")
                       if get_default_physical_units(c)["nac_factor"] is not None})
-    ncases = 24 if thorough else 6
+    ncases = 24 if thorough else 8
     nmax = 24 if thorough else 16
     lines, meta = [], []
     made = attempts = 0
@@ -259,6 +259,20 @@ def main(run):
                      born=born_s.tolist(), dielectric=eps_s.tolist())
         made += 1
         run.sample(dict(kind="nac", **{k: info0[k] for k in ("cell", "smat", "layout", "variant", "factor")}, direction=n1.tolist(), scale=lam, q_commensurate=q_comm.tolist()))
+
+        # certificate of the structural phase description used by wang_commensurate_noop /
+        # gl_commensurate_partial (the same Lat.wf as in C06), on this case's tables
+        from .c06 import _lat_data
+
+        svecs_c, multi_c = U.dense_svecs(prim)
+        s2pp_c, p2s_c = U.s2pp_map(prim), np.array(prim.p2s_map, dtype=int)
+        Ncell = ns // npa
+        kq_c, R_c, herr = _lat_data(prim, cp, svecs_c, multi_c, s2pp_c, p2s_c, Ncell)
+        if kq_c is None or herr > 1e-9:
+            run.broke("correspondence", "phases of the shortest vectors do not have the structural form assumed by the commensurate theorems (err %.3g)" % herr, info0)
+        else:
+            lines.append("latwf %d %d %d %d %s %s %s %s" % (npa, ns, Ncell, Ncell, U.ints(s2pp_c), U.ints(p2s_c), U.ints(kq_c), U.ints(R_c)))
+            meta.append(("lattice-certificate", info0, lambda line: None if line == "true" else "Lat.wf = %s on the implementation's tables" % line))
 
         # plain matrices
         ph.force_constants = fc_used.copy()
@@ -404,7 +418,7 @@ def main(run):
         err = chk(line)
         if err is not None:
             run.broke("correspondence", "%s: %s" % (kind, err), {k: v for k, v in info.items() if k not in ("born", "dielectric")})
-            if kind == "group-certificate":
+            if kind in ("group-certificate", "lattice-certificate"):
                 run.violation("Symmetry.symmetry_operations", "tables-not-wellformed", err, info)
     run.cov["correspondence"]["compared"] = ncmp
 
